@@ -806,7 +806,7 @@ records is the type the C++ compiler gives the expression.
 Scope (`Scoped Gen.cfg e`, decidable): operands of type `int`/`double`; operators `+ - * / **`,
 unary `+ -`; every call resolves to a row that is the namesake of the written name and whose
 declared result type is the C++ result type for the argument types at hand.  By
-`documented_plain_partial` and `abs_scope` that is: every documented function except `round`
+`documented_plain_partial` and `abs_scope_partial` that is: every documented function except `round`
 (defect: refused), `remquo` (defect: needs an `int*`), `ilogb` (defect: returns `int`, declared
 `double`) and `abs` applied to integers only (defect: `std::abs(int)` is `int`, declared `double`).  `float` operands are outside
 the abstraction (single-precision overloads), not a known defect. -/
@@ -885,11 +885,12 @@ theorem documented_scoped_partial (f : String) (hf : f ∈ Gen.readmeFunctions)
     (hx : f ∉ ["round", "ilogb", "abs", "remquo"]) (tys : List CT) : callOk Gen.cfg f tys = true :=
   callOk_of_plainRow (documented_plain_partial f hf hx) tys
 
-/-- … and `abs` satisfies it exactly when not all of its arguments are integers. -/
-theorem abs_scope (tys : List CT) :
-    callOk Gen.cfg "abs" tys = (tys.isEmpty || !tys.all (· == .int)) := by
+/-- … and `abs` satisfies it whenever not all of its arguments are integers (`std::abs(int)` is
+`int`: `computes_namesake_counterexample_abs_int`). -/
+theorem abs_scope_partial (tys : List CT) (h : (tys.isEmpty || !tys.all (· == .int)) = true) :
+    callOk Gen.cfg "abs" tys = true := by
   have fact : (match findKnown Gen.cfg.table Gen.cfg.env "abs" with
-      | .ok (some r) => r.cpp == "std::abs" && r.ret == "double" && meaningCpp r.cpp == meaningPy "abs"
+      | .ok (some r) => r.ret == "double" && meaningCpp r.cpp == meaningPy "abs" && r.cpp != "std::ilogb"
       | _ => false) = true := by decide +kernel
   unfold callOk
   cases hk : findKnown Gen.cfg.table Gen.cfg.env "abs" with
@@ -898,18 +899,19 @@ theorem abs_scope (tys : List CT) :
     cases o with
     | none => simp [hk] at fact
     | some r =>
-      simp only [hk, Bool.and_eq_true, beq_iff_eq] at fact
-      obtain ⟨⟨h1, h2⟩, h3⟩ := fact
+      simp only [hk, Bool.and_eq_true, beq_iff_eq, bne_iff_ne, ne_eq] at fact
+      obtain ⟨⟨h2, h3⟩, h4⟩ := fact
       have hm : (meaningPy "abs").isSome = true := by decide
       have hv : byValue "abs" = true := by decide
-      have h3' : meaningCpp "std::abs" = meaningPy "abs" := by decide
-      simp only [hm, hv, h3', h2, h1, cppRet, CT.ofName, Bool.true_and, Bool.and_true, beq_self_eq_true]
-      cases tys with
-      | nil => simp
-      | cons a as =>
-        by_cases hall : (a :: as).all (· == CT.int) = true
-        · simp [hall]
-        · simp [hall]
+      have hret : cppRet r.cpp tys = .dbl := by
+        unfold cppRet
+        simp only [h4, if_false]
+        cases tys with
+        | nil => simp
+        | cons a as =>
+          simp only [List.isEmpty_cons, Bool.false_or, Bool.not_eq_true'] at h
+          simp [h]
+      simp [hm, hv, h3, h2, hret, CT.ofName]
 
 /-- A documented expression without `round` is never refused with "Do not know how to call", and
 no documented name makes the resolver raise. -/
